@@ -35,8 +35,17 @@ def _mod():
     return _S['EX']
 
 
+class _Tag:
+    """a key / value pattern of an ambiguity-filter dictionary handed to the real `_filter_ambiguity`: the module proxy
+    unwraps it and knows which dictionary entry the call belongs to"""
+
+    def __init__(self, role, j, real):
+        self.role, self.j, self.real = role, j, real
+
+
 class _RegexModuleProxy:
-    """stands in for the `regex` module inside number_with_unit/extractors.py; logs finditer calls to the active record"""
+    """stands in for the `regex` module inside number_with_unit/extractors.py; logs finditer / match calls to the active
+    record"""
 
     def __init__(self, real):
         self.__dict__['_real'] = real
@@ -45,11 +54,30 @@ class _RegexModuleProxy:
         return getattr(self._real, name)
 
     def finditer(self, pattern, string, *a, **k):
+        tag = None
+        if isinstance(pattern, _Tag):
+            tag, pattern = pattern, pattern.real
         ms = list(self._real.finditer(pattern, string, *a, **k))
         rec = _S.get('active')
         if rec is not None:
-            rec['finditer'].append((pattern, string, [(m.start(), m.group()) for m in ms]))
+            cur = rec.get('fa_cur')
+            if tag is not None and cur is not None:
+                nz = [(m.start(), len(m.group())) for m in ms if m.group()]
+                if tag.role == 'key':
+                    if nz and string not in cur['filters'][tag.j]['hits']:
+                        cur['filters'][tag.j]['hits'].append(string)
+                else:
+                    cur['filters'][tag.j]['val'] = nz
+            else:
+                rec['finditer'].append((pattern, string, [(m.start(), m.group()) for m in ms]))
         return iter(ms)
+
+    def match(self, pattern, string, *a, **k):
+        m = self._real.match(pattern, string, *a, **k)
+        rec = _S.get('active')
+        if rec is not None and rec.get('fa_cur') is not None and m and string not in rec['fa_cur']['scu']:
+            rec['fa_cur']['scu'].append(string)
+        return m
 
 
 class _FindProxy:
@@ -149,7 +177,7 @@ def record(ex, source):
     instrument()
     C = _S['C']
     rec = {'source': source, 'pm': [], 'sm': [], 'nums': [], 'finditer': [], 'nonunit': [], 'amb': None, 'masks': [],
-           'select': [], 'pre': None, 'half': [], 'raised': None, 'result': None, 'filter_raised': False}
+           'select': [], 'pre': None, 'half': [], 'raised': None, 'result': None, 'filter_raised': False, 'fa': [], 'fa_cur': None}
     cfg = ex.config
     rec['conn'] = cfg.connector_token
     rec['mpl'] = ex.max_prefix_match_len
@@ -163,14 +191,25 @@ def record(ex, source):
     orig_fa, orig_sc = ex._filter_ambiguity, ex._select_candidates
 
     def fa(ers, text, *a, **k):
+        # the dictionary the call would use, handed over explicitly with tagged patterns (same patterns, same order)
+        d = a[0] if a else k.get('ambiguity_filter_dict')
+        if d is None:
+            d = cfg.ambiguity_filters_dict
         before = list(ers)
+        cur = {'filters': [{'hits': [], 'val': []} for _ in (d or {})], 'scu': []}
+        rec['fa_cur'] = cur
         try:
-            out = orig_fa(ers, text, *a, **k)
+            if d is None:
+                out = orig_fa(ers, text)
+            else:
+                out = orig_fa(ers, text, dict((_Tag('key', j, kk), _Tag('val', j, d[kk])) for j, kk in enumerate(d)))
         except Exception:
-            # `_filter_ambiguity` is regex-only and a parameter of the model; when it raises (it indexes `ers[0]` of a list
-            # it has just emptied) the call has no modelled counterpart
+            # (before fix 1adaa8061 it indexed `ers[0]` of a list it had just emptied)
             rec['filter_raised'] = True
             raise
+        finally:
+            rec['fa_cur'] = None
+        rec['fa'].append(cur)
         ids = set(id(e) for e in out)
         rec['masks'].append(([_snap(e) for e in before], [id(e) in ids for e in before]))
         return out
@@ -219,6 +258,16 @@ def _mask(bs):
     return ''.join('1' if b else '0' for b in bs) if bs else '_'
 
 
+def _filt(cur):
+    """regex outcomes of one `_filter_ambiguity` call in the driver's format"""
+    if cur is None:
+        return '_'
+    parts = [','.join(cps(t) for t in cur['scu']) or '_']
+    for f in cur['filters']:
+        parts.append((','.join(cps(t) for t in f['hits']) or '_') + '~' + _lst(['%d:%d' % m for m in f['val']]))
+    return '|'.join(parts)
+
+
 def _ers(snaps, with_type=None):
     return _lst(['%d:%d:%s:%s' % (s, l, 'n' if rel is None else rel, cps(t)) for (s, l, t, rel, ty) in snaps])
 
@@ -253,14 +302,13 @@ def to_ops(rec):
             cuts.append(str(len(nz[0])) if len(nz) == 1 else 'n')
     sep_calls = [f for f in rec['finditer'] if f[0] is rec['sep_regex'] and rec['has_sep']]
     sep = sep_calls[-1][2] if sep_calls else []
-    masks = [m for (_b, m) in rec['masks']]
-    mask1 = masks[0] if masks else []
-    mask2 = masks[1] if len(masks) > 1 else []
+    filt1 = _filt(rec['fa'][0] if rec['fa'] else None)
+    filt2 = _filt(rec['fa'][1] if len(rec['fa']) > 1 else None)
     half = rec['half']
     base = [cps(src), cps(rec['conn'] or ''), str(rec['mpl']), '1' if rec['is_cur'] else '0', '1' if rec['is_dim'] else '0',
             _mrs(pm), _mrs(sm), _mrs(nums1), _mrs(nums2), (','.join(cuts) if cuts else '_'),
             _lst(['%d:%d' % (s, l) for (s, l, e) in rec['nonunit']]), '1' if rec['has_sep'] else '0',
-            _lst(['%d:%s' % (s, cps(g)) for (s, g) in sep]), cps(rec['amb_term']), _mask(mask1), _mask(mask2), _mask(half), '1' if VARIANT['lockstep'] else '0']
+            _lst(['%d:%s' % (s, cps(g)) for (s, g) in sep]), cps(rec['amb_term']), filt1, filt2, _mask(half), '1' if VARIANT['lockstep'] else '0']
     ops = []
     flags = rec['select'][0]['flags'] if rec['select'] else None
     if rec['filter_raised']:
